@@ -149,7 +149,7 @@ CHECKS = {
         "technique": "explicit-state BFS to fixpoint over real ComponentRegistry/Library histories vs dict model + tag-table invariant",
         "text": "All register/unregister/get/all/clear histories of every length over 3-4 names x 3 classes are covered by BFS to a fixpoint on real registries for the default, shorthand and a tag-sharing custom formatter, on empty/pre-loaded, "
                 "unprotected/protected private libraries, with one registry, two independent registries and two registries sharing a library (36 configurations); each transition is compared with a dict model and the library tag table; "
-                "all unmerged sequences <= 4 (quick) / <= 5 (thorough) cross-check the state merging; every reachable single-registry state is also probed through a compiled template. One open known finding (shared library). Four single-registry configurations are explored a second time through the module-level @register decorator. `mark_protected_tags(lib, [])` (explicitly nothing protected) is one of the protect options.",
+                "all unmerged sequences <= 4 (quick) / <= 5 (thorough) cross-check the state merging; every reachable single-registry state is also probed through a compiled template. One open known finding (shared library). Four single-registry configurations are explored a second time through the module-level @register decorator. `mark_protected_tags(lib, [])` (explicitly nothing protected) is one of the protect options. Part protection_histories: every history <= 4 / 5 in which the protected list itself changes (mark_protected_tags as an operation).",
         "note": "single-threaded; formatter and protection fixed per history; shared-library clause read over all registries attached to the library; classes with unique import paths",
     },
     "C16": {
